@@ -26,6 +26,24 @@ def tupleCounts (ts : List Nat) (len : Nat) : List (List Nat × Nat) :=
   let distinct := (ws.foldl (fun acc w => if acc.contains w then acc else acc ++ [w]) [])
   distinct.map (fun w => (w, ws.count w))
 
+/-! ### discretisation (`GslDivLoss.discretize`) -/
+
+section Discretize
+variable {α : Type} [Add α] [Sub α] [Mul α] [Div α]
+
+/-- `np.linspace(start, stop, n + 1)`: `i·step + start` with `step = (stop − start)/n`, the last node set to `stop` -/
+def linspace (ofNat : Nat → α) (start stop : α) (n : Nat) : List α :=
+  let step := (stop - start) / ofNat n
+  (List.range (n + 1)).map (fun i => if i = n then stop else ofNat i * step + start)
+
+/-- `discretize(ts, nb, lo, hi)`: `np.searchsorted(linspace(lo − EPS, hi + EPS, nb + 1), ts, side="left")`, i.e. for each
+value the number of nodes strictly below it -/
+def discretize [LT α] [DecidableLT α] (ofNat : Nat → α) (eps : α) (ts : List α) (nb : Nat) (lo hi : α) : List Nat :=
+  let nodes := linspace ofNat (lo - eps) (hi + eps) nb
+  ts.map (fun v => (nodes.filter (fun nd => nd < v)).length)
+
+end Discretize
+
 /-! ### the divergence itself (`gsl_div_1d_1_sample`, `compute_loss_1d`), parametric in the number type -/
 
 section Div
